@@ -102,6 +102,10 @@ class Injector:
         writing = any(c in mode for c in "wax+")
         self.event("open-" + ("w" if writing else "r"), os.fspath(file))
         f = self._saved["io.open"](file, mode, *a, **kw)
+        if writing:
+            # a second crash point right after the open took effect (the file may just have been created or truncated):
+            # code that copies with os.sendfile / copy_file_range performs no further Python-level write before close
+            self.event("opened-w", os.fspath(file))
         return FileProxy(self, f, os.fspath(file), mode) if writing else f
 
     def _wrap2(self, key):
@@ -124,6 +128,14 @@ class Injector:
             return orig(target, *a, **kw)
         return fn
 
+    def _wrap_fd(self, key):
+        orig = self._saved[key]
+
+        def fn(*a, **kw):
+            self.event(key.split(".")[1], "fd")      # descriptor-level copy inside the guarded block
+            return orig(*a, **kw)
+        return fn
+
     def __enter__(self):
         self._saved = {"io.open": io.open, "builtins.open": builtins.open, "os.replace": os.replace, "os.rename": os.rename,
                        "os.fsync": os.fsync, "os.remove": os.remove, "os.unlink": os.unlink, "os.truncate": os.truncate}
@@ -135,6 +147,10 @@ class Injector:
         os.remove = self._wrap1("os.remove")
         os.unlink = self._wrap1("os.unlink")
         os.truncate = self._wrap1("os.truncate")
+        for name in ("sendfile", "copy_file_range"):
+            if hasattr(os, name):
+                self._saved["os." + name] = getattr(os, name)
+                setattr(os, name, self._wrap_fd("os." + name))
         return self
 
     def __exit__(self, *exc):
@@ -146,4 +162,7 @@ class Injector:
         os.remove = self._saved["os.remove"]
         os.unlink = self._saved["os.unlink"]
         os.truncate = self._saved["os.truncate"]
+        for name in ("sendfile", "copy_file_range"):
+            if "os." + name in self._saved:
+                setattr(os, name, self._saved["os." + name])
         return False
